@@ -302,6 +302,13 @@ func (mpt *MerklePatriciaTrie) SaveChanges(ctx context.Context, ndb NodeDB, incl
 			zap.Error(err))
 		return err
 	case <-doneC:
+		// the saver reports a failure on errC before it closes doneC: when both are ready the select may
+		// take this branch, so look at errC once more instead of reporting a failed save as done
+		select {
+		case err := <-errC:
+			return err
+		default:
+		}
 	}
 	return nil
 }
